@@ -2,157 +2,157 @@ package main
 
 func init() {
 	register(&PropertyRule{ID: "C06", Explain: "structural necessary conditions of C06 (commit is quorum-backed, current-term, within the log): see DESIGN.md §5 C06", Run: func(c *Check) {
-		gCommitMono(c)
-		gCommitBound(c)
-		gCommitLeader(c)
-		gMatchAck(c)
-		c06Follower(c)
-		gQuorumJoint(c)
-		gRoute(c)
+		g(c, "gCommitMono", gCommitMono)
+		g(c, "gCommitBound", gCommitBound)
+		g(c, "gCommitLeader", gCommitLeader)
+		g(c, "gMatchAck", gMatchAck)
+		g(c, "c06Follower", c06Follower)
+		g(c, "gQuorumJoint", gQuorumJoint)
+		g(c, "gRoute", gRoute)
 	}})
 	register(&PropertyRule{ID: "C02", Explain: "structural necessary conditions of C02 (election safety): see DESIGN.md §5 C02", Run: func(c *Check) {
-		gVote(c)
-		gTermGate(c)
-		c05MustSync(c) // what is promised must be flagged for a synchronous write
-		gElect(c)
-		gQuorumJoint(c)
-		c10Hup(c)
+		g(c, "gVote", gVote)
+		g(c, "gTermGate", gTermGate)
+		g(c, "c05MustSync", c05MustSync) // what is promised must be flagged for a synchronous write
+		g(c, "gElect", gElect)
+		g(c, "gQuorumJoint", gQuorumJoint)
+		g(c, "c10Hup", c10Hup)
 	}})
 	register(&PropertyRule{ID: "C12", Explain: "structural necessary conditions of C12 (quorum arithmetic): see DESIGN.md §5 C12", Run: func(c *Check) {
-		c12Quorum(c)
-		gQuorumJoint(c)
+		g(c, "c12Quorum", c12Quorum)
+		g(c, "gQuorumJoint", gQuorumJoint)
 	}})
 	register(&PropertyRule{ID: "C05", Explain: "structural necessary conditions of C05 (promises durable before visible): see DESIGN.md §5 C05", Run: func(c *Check) {
-		gRoute(c)
-		c05Extras(c)
-		gMatchAck(c)
-		nodeLoop(c)
+		g(c, "gRoute", gRoute)
+		g(c, "c05Extras", c05Extras)
+		g(c, "gMatchAck", gMatchAck)
+		g(c, "nodeLoop", nodeLoop)
 	}})
 	register(&PropertyRule{ID: "C08", Explain: "structural necessary conditions of C08 (apply stream): see DESIGN.md §5 C08", Run: func(c *Check) {
-		gApply(c)
-		sliceRules(c)
-		nodeLoop(c)
+		g(c, "gApply", gApply)
+		g(c, "sliceRules", sliceRules)
+		g(c, "nodeLoop", nodeLoop)
 		// a snapshot is part of the apply stream: it is installed only above commit (hence above the
 		// apply cursor), and commit never falls back below what was delivered
 		c.SkipRules = map[string]bool{"C09.C": true}
-		c09Install(c)
+		g(c, "c09Install", c09Install)
 		c.SkipRules = nil
-		gCommitMono(c)
+		g(c, "gCommitMono", gCommitMono)
 	}})
 	register(&PropertyRule{ID: "C19", Explain: "structural conditions of C19 (determinism): all nondeterminism sources, map iterations and globals in code reachable from the API; see DESIGN.md §5 C19", Run: func(c *Check) {
-		c19Determinism(c)
+		g(c, "c19Determinism", c19Determinism)
 	}})
 	register(&PropertyRule{ID: "C07", Explain: "structural necessary conditions of C07 (HardState monotone): see DESIGN.md §5 C07", Run: func(c *Check) {
-		gCommitMono(c)
-		c05MustSync(c) // what is promised must be flagged for a synchronous write
-		gVote(c)
-		c07HardState(c)
+		g(c, "gCommitMono", gCommitMono)
+		g(c, "c05MustSync", c05MustSync) // what is promised must be flagged for a synchronous write
+		g(c, "gVote", gVote)
+		g(c, "c07HardState", c07HardState)
 	}})
 	register(&PropertyRule{ID: "C09", Explain: "structural necessary conditions of C09 (snapshot install): see DESIGN.md §5 C09", Run: func(c *Check) {
-		c09Snapshot(c)
-		cSnapClear(c)
-		cStorageSnapshot(c)
-		gTrunc(c)
-		gCommitMono(c)
-		c06Follower(c)
-		c05Extras(c)
+		g(c, "c09Snapshot", c09Snapshot)
+		g(c, "cSnapClear", cSnapClear)
+		g(c, "cStorageSnapshot", cStorageSnapshot)
+		g(c, "gTrunc", gTrunc)
+		g(c, "gCommitMono", gCommitMono)
+		g(c, "c06Follower", c06Follower)
+		g(c, "c05Extras", c05Extras)
 	}})
 	register(&PropertyRule{ID: "C10", Explain: "structural necessary conditions of C10 (membership changes): see DESIGN.md §5 C10", Run: func(c *Check) {
-		c10ConfChange(c)
-		gQuorumJoint(c)
+		g(c, "c10ConfChange", c10ConfChange)
+		g(c, "gQuorumJoint", gQuorumJoint)
 	}})
 	register(&PropertyRule{ID: "C01", Explain: "node-local structural necessary conditions of C01 (state-machine safety): see DESIGN.md §5 C01", Run: func(c *Check) {
-		gTrunc(c)
-		gTermGate(c)
-		c05MustSync(c) // what is promised must be flagged for a synchronous write
-		gCommitMono(c)
-		gApply(c)
-		sliceRules(c)
-		gCommitLeader(c)
-		c06Follower(c)
+		g(c, "gTrunc", gTrunc)
+		g(c, "gTermGate", gTermGate)
+		g(c, "c05MustSync", c05MustSync) // what is promised must be flagged for a synchronous write
+		g(c, "gCommitMono", gCommitMono)
+		g(c, "gApply", gApply)
+		g(c, "sliceRules", sliceRules)
+		g(c, "gCommitLeader", gCommitLeader)
+		g(c, "c06Follower", c06Follower)
 		// cluster-level agreement additionally rests on every node-local safety mechanism:
-		gVote(c)
-		gElect(c)
-		gQuorumJoint(c)
-		gAppendMatch(c)
-		gStamp(c)
-		gStable(c)
-		gMatchAck(c)
-		gRoute(c)
-		c10Gate(c)
-		c10Hup(c)
+		g(c, "gVote", gVote)
+		g(c, "gElect", gElect)
+		g(c, "gQuorumJoint", gQuorumJoint)
+		g(c, "gAppendMatch", gAppendMatch)
+		g(c, "gStamp", gStamp)
+		g(c, "gStable", gStable)
+		g(c, "gMatchAck", gMatchAck)
+		g(c, "gRoute", gRoute)
+		g(c, "c10Gate", c10Gate)
+		g(c, "c10Hup", c10Hup)
 	}})
 	register(&PropertyRule{ID: "C04", Explain: "structural necessary conditions of C04 (leader completeness): see DESIGN.md §5 C04", Run: func(c *Check) {
-		gVote(c)
-		gTermGate(c)
-		gCommitLeader(c)
-		c06Follower(c)
-		gQuorumJoint(c)
-		c04Noop(c)
-		gAppendMatch(c)
-		gStamp(c)
-		gElect(c)
-		gMatchAck(c)
-		c10Gate(c)
-		c10Hup(c)
+		g(c, "gVote", gVote)
+		g(c, "gTermGate", gTermGate)
+		g(c, "gCommitLeader", gCommitLeader)
+		g(c, "c06Follower", c06Follower)
+		g(c, "gQuorumJoint", gQuorumJoint)
+		g(c, "c04Noop", c04Noop)
+		g(c, "gAppendMatch", gAppendMatch)
+		g(c, "gStamp", gStamp)
+		g(c, "gElect", gElect)
+		g(c, "gMatchAck", gMatchAck)
+		g(c, "c10Gate", c10Gate)
+		g(c, "c10Hup", c10Hup)
 	}})
 	register(&PropertyRule{ID: "C11", Explain: "structural necessary conditions of C11 (ReadIndex, ReadOnlySafe): see DESIGN.md §5 C11", Run: func(c *Check) {
-		c11ReadIndex(c)
-		gQuorumJoint(c)
+		g(c, "c11ReadIndex", c11ReadIndex)
+		g(c, "gQuorumJoint", gQuorumJoint)
 	}})
 	register(&PropertyRule{ID: "C17", Explain: "structural necessary conditions of C17 (PreVote / CheckQuorum): see DESIGN.md §5 C17", Run: func(c *Check) {
-		c17Disruption(c)
-		gTermGate(c)
-		gElect(c)
+		g(c, "c17Disruption", c17Disruption)
+		g(c, "gTermGate", gTermGate)
+		g(c, "gElect", gElect)
 	}})
 	register(&PropertyRule{ID: "C16", Explain: "structural necessary conditions of C16 (flow control and size limits): see DESIGN.md §5 C16", Run: func(c *Check) {
-		c16FlowControl(c)
+		g(c, "c16FlowControl", c16FlowControl)
 	}})
 	register(&PropertyRule{ID: "C20", Explain: "structural necessary conditions of C20 (proposal integrity): see DESIGN.md §5 C20", Run: func(c *Check) {
-		c20Proposals(c)
-		sliceRules(c)    // what is replicated is a contiguous slice of the log: nothing skipped, nothing twice
-		c10AutoLeave(c) // the only proposal raft makes on its own, once per joint configuration
-		c04Noop(c)
-		gStamp(c)
-		c10Gate(c)
+		g(c, "c20Proposals", c20Proposals)
+		g(c, "sliceRules", sliceRules)     // what is replicated is a contiguous slice of the log: nothing skipped, nothing twice
+		g(c, "c10AutoLeave", c10AutoLeave) // the only proposal raft makes on its own, once per joint configuration
+		g(c, "c04Noop", c04Noop)
+		g(c, "gStamp", gStamp)
+		g(c, "c10Gate", c10Gate)
 	}})
 	register(&PropertyRule{ID: "C13", Explain: "structural necessary conditions of C13 (configuration algebra): see DESIGN.md §5 C13", Run: func(c *Check) {
-		c13ConfAlgebra(c)
+		g(c, "c13ConfAlgebra", c13ConfAlgebra)
 		// Restore's precondition at its raft call site: the snapshot's configuration is replayed on an empty tracker
 		c.OnlyRules = map[string]bool{"C09.C": true}
-		c09Install(c)
+		g(c, "c09Install", c09Install)
 		c.OnlyRules = nil
 	}})
 	register(&PropertyRule{ID: "C14", Explain: "C14 (no internal assertion fires): panic-site ledger and the statically discharged sites only; see DESIGN.md §5 C14", Run: func(c *Check) {
-		c14Panics(c)
+		g(c, "c14Panics", c14Panics)
 		// preconditions of assertions/bounds that other groups already decide: the campaign gate (a node
 		// never leads a configuration it has not applied; the scan stays inside the log) and the
 		// read-only queue's slice bounds
-		c10Hup(c)
+		g(c, "c10Hup", c10Hup)
 		c.OnlyRules = map[string]bool{"C11.M": true}
-		c11ReadIndex(c)
+		g(c, "c11ReadIndex", c11ReadIndex)
 		c.OnlyRules = nil
 	}})
 	register(&PropertyRule{ID: "C15", Explain: "C15 (convergence): existence of each recovery edge only; see DESIGN.md §5 C15", Run: func(c *Check) {
-		c15Recovery(c)
-		c10AutoLeave(c)
-		c10Hup(c) // a campaign is refused only for a committed, unapplied configuration change
+		g(c, "c15Recovery", c15Recovery)
+		g(c, "c10AutoLeave", c10AutoLeave)
+		g(c, "c10Hup", c10Hup) // a campaign is refused only for a committed, unapplied configuration change
 	}})
 	register(&PropertyRule{ID: "C03", Explain: "structural necessary conditions of C03 (log matching): see DESIGN.md §5 C03", Run: func(c *Check) {
-		gTrunc(c)
-		gStable(c)
-		gAppendMatch(c)
-		gStamp(c)
-		c03Unstable(c)
-		cStorageSnapshot(c)
-		sliceRules(c)
+		g(c, "gTrunc", gTrunc)
+		g(c, "gStable", gStable)
+		g(c, "gAppendMatch", gAppendMatch)
+		g(c, "gStamp", gStamp)
+		g(c, "c03Unstable", c03Unstable)
+		g(c, "cStorageSnapshot", cStorageSnapshot)
+		g(c, "sliceRules", sliceRules)
 	}})
 	register(&PropertyRule{ID: "C18", Explain: "structural necessary conditions of C18 (log storage views): see DESIGN.md §5 C18", Run: func(c *Check) {
-		c18Storage(c)
-		cSnapClear(c) // the pending snapshot is part of the combined view
-		cStorageSnapshot(c)
-		gStable(c)
-		sliceRules(c)
+		g(c, "c18Storage", c18Storage)
+		g(c, "cSnapClear", cSnapClear) // the pending snapshot is part of the combined view
+		g(c, "cStorageSnapshot", cStorageSnapshot)
+		g(c, "gStable", gStable)
+		g(c, "sliceRules", sliceRules)
 	}})
 }
 
